@@ -2,6 +2,8 @@ SPECIFICATION Spec
 CONSTANTS
   MaxSteps = 5
   DEV_StaticRegistersCenter = TRUE
+  DEV_ReassignKeepsOld = FALSE
+  DEV_RemoveNeedsLanelets = FALSE
 INVARIANT InvInverseStatic
 INVARIANT InvInverseDynamic
 INVARIANT InvRemoveTotal
